@@ -84,7 +84,7 @@ def run(ctx, res):
     # ---- R3 -----------------------------------------------------------------
     # decided on the values that reach the call on each path (a table of (pointer, size) rows walked by a loop, locals,
     # the arguments spelled out: all the same), one obligation per distinct (call, buffer value, length value)
-    res.floor("C20.R3", 4)
+    res.floor("C20.R3", 2)
     callers = {}
     for f, n in lib_calls(prog, wf.name):
         callers.setdefault((f.unit, f.name), f)
@@ -189,6 +189,16 @@ def _pair_value(prog, f, p, e):
         if size is not None and size == vl[1]:
             return True, "constant length %d = size of the object %s" % (size, obj)
         return False, "constant length %s but the object %s has size %s" % (vl[1], obj, size)
+    # what the codecs put into the buffer, contiguously from its start, adds up to the length (a header assembled from several
+    # encodes and written at once)
+    try:
+        from . import framerule
+        evs_ = [x for x in p.events if x.kind != "branch"]
+        pcs = framerule._pieces(evs_, evs_.index(e), e.a)
+        if pcs and all(pc[0] != "raw" for pc in pcs):
+            return True, "length = the bytes the encoders put into the buffer (%s)" % "+".join(pc[0] for pc in pcs)
+    except (ValueError, BrokenAnalysis):
+        pass
     # the result of a call that was given the same buffer
     for e2 in p.events:
         if e2.kind == "call" and e2.c == vl and e2.b and e2.b[0] == vp:
